@@ -149,15 +149,18 @@ def run_case(case, ctx):
                 ctx.outcome("bad")
                 return
             kind, got = hostcli.kind_of(open(path, "rb").read())
+            first_empty = next((j for j, e in enumerate(want) if len(e["data"]) == 0), None)
+            if cur.endswith("cas") and first_empty is not None and hostcli.same_list(got, want[:first_empty]) is None:
+                # the known wrong behaviour, modelled exactly: the source cassette is listed only up to its first empty file
+                ctx.violation("convert", form, "COUNT:source-cassette-listing-stops-at-empty-file", dict(wit, got=[g["name"] for g in got], want=[w["name"] for w in want]), tr)
+                ctx.outcome("bad")
+                return
             if kind != ("cassette" if tgt == "cas" else "disk") and want:
                 ctx.violation("convert", form, "OUTPUT-NOT-A-%s-IMAGE" % tgt.upper(), dict(wit, kind=kind), tr)
                 ctx.outcome("bad")
                 return
             diff = hostcli.same_list(got, want)
             if diff:
-                first_empty = next((j for j, e in enumerate(want) if len(e["data"]) == 0), None)
-                if cur.endswith("cas") and first_empty is not None and hostcli.same_list(got, want[:first_empty]) is None:
-                    diff = "COUNT:source-cassette-listing-stops-at-empty-file"
                 ctx.violation("convert", form, diff, dict(wit, got=[g["name"] for g in got], want=[w["name"] for w in want]), tr)
                 ctx.outcome("bad")
                 return
